@@ -1,3 +1,66 @@
-/- Properties/C08.lean — placeholder until the resolution proofs land -/
-import Spec.Resolve
-import Model.Resolve
+/-
+  Properties/C08.lean — schema resolution: the reader-schema paths of `read_data` (model
+  Resolve.readR) against the specification reader Spec.resolveRead (Spec/Resolve.lean, written from
+  the specification's rule list).
+
+  PROVED (one resolution step each, for every input):
+    * `c08_promotions`      — the promotion pairs `match_types` accepts and the conversions
+                              `maybe_promote` applies are the specification's, for all 64 pairs;
+    * `c08_primitives`      — a primitive read under a primitive reader type: equal to the
+                              specification's reader on every byte string (value, promoted value,
+                              schema-resolution error, decoding error);
+    * `c08_enum_default`    — unknown symbol → reader default → else schema-resolution error;
+    * `c08_field_matching`  — writer-field loop of `read_record` = the specification's: match by
+                              name, else by reader alias, regardless of order; others skipped;
+                              the dict-based lookup is the specification's under unambiguous names;
+  NOT YET PROVED (full statement kept visible as `C08_full`): the composition of those steps
+  through arrays, maps, records, unions and named types at any depth (`readR = Spec.resolveRead`
+  on closed, plain schemas).  That clause is covered by the correspondence/oracle runs only
+  (harness/props/c08.py compares implementation, model and specification reader on evolved schemas).
+-/
+import Proofs.Resolve
+
+open Binary Resolve ResolveProofs
+
+/-- the full statement (not proved yet): on closed plain schemas the model's resolving reader is the
+    specification's, result for result (fuel exhaustion aside) -/
+def C08_full : Prop :=
+  ∀ (fuel : Nat) (wenv renv : Env) (ro : ROpts) (w r : Schema) (bs : Bytes) (res : R (Val × Bytes)),
+    NoPrimKeys wenv → NoPrimKeys renv →
+    readR fuel wenv renv ro w r bs = res → res ≠ .error .fuel →
+    ∃ fuel', Spec.resolveRead fuel' wenv renv w r bs = res
+
+theorem c08_promotions (wp rp : Prim) (v : Val) :
+    promotes wp.name rp.name = Spec.promotable wp rp ∧
+    maybePromote v wp.name rp.name = Spec.promote wp rp v :=
+  ⟨promotes_eq wp rp, promote_eq wp rp v⟩
+
+theorem c08_primitives (fuel : Nat) (wenv renv : Env) (ro : ROpts) (wp rp : Prim) (bs : Bytes)
+    (hw : NoPrimKeys wenv) :
+    readR (fuel+2) wenv renv ro (.prim wp false none) (.prim rp false none) bs =
+      Spec.resolveRead (fuel+2) wenv renv (.prim wp false none) (.prim rp false none) bs :=
+  readR_prim fuel wenv renv ro wp rp bs hw
+
+theorem c08_enum_default (sym rn : String) (rsyms : List String) (rdef : Option Val) (ral : List String) :
+    resolveSymbol sym (.enum rn rsyms rdef ral) =
+      (if rsyms.contains sym then pure (.str sym)
+       else match rdef with
+         | some d => if d.truthy then pure d else throw .resolution
+         | none => throw .resolution) :=
+  resolveSymbol_enum sym rn rsyms rdef ral
+
+theorem c08_field_matching (rd : Schema → Schema → Bytes → R (Val × Bytes)) (sk : Schema → Bytes → R Bytes)
+    (rfs wfs : List Field) (h : FieldsUnambiguous rfs) (bs : Bytes) (acc : List (Val × Val)) :
+    readFieldsRWith rd sk rfs wfs bs acc = Spec.fieldsWith rd sk rfs wfs bs acc :=
+  fields_eq rd sk rfs (findReaderField_eq rfs h) wfs bs acc
+
+/-! non-vacuity -/
+example : NoPrimKeys [("ns.R", .record "ns.R" [] [])] := by intro p; cases p <;> decide
+example : FieldsUnambiguous [.mk "a" (.prim .int false none) none ["old"], .mk "b" (.prim .int false none) none []] := by
+  constructor
+  · intro a ha b hb; simp at ha hb; rcases ha with rfl | rfl <;> rcases hb with rfl | rfl <;> simp [Field.name]
+  · intro n a ha b hb; simp at ha hb; rcases ha with rfl | rfl <;> rcases hb with rfl | rfl <;> simp [Field.aliases]
+example : (match readR 5 [] [] {} (.prim .int false none) (.prim .double false none) [0x0a] with
+    | .ok (.float _, []) => true | _ => false) = true := by decide +kernel
+example : (match readR 5 [] [] {} (.prim .long false none) (.prim .int false none) [0x0a] with
+    | .error .resolution => true | _ => false) = true := by decide +kernel
